@@ -37,7 +37,7 @@ Loop = namedtuple("Loop", "lid iter target body carried line comp")
 Try = namedtuple("Try", "tid body handlers line")          # handlers: [Handler]
 Handler = namedtuple("Handler", "exc name body term ret line")
 With = namedtuple("With", "items body line")
-Inlined = namedtuple("Inlined", "qual body line cls fn")
+Inlined = namedtuple("Inlined", "qual body line cls fn params ret")
 Call = namedtuple("Call", "callee method recv args kwargs res line")
 Construct = namedtuple("Construct", "qual args kwargs res line")
 Draw = namedtuple("Draw", "prim args kwargs res line")
@@ -1208,8 +1208,9 @@ class Summariser:
                 raise Unsupported(f"generator {m.name} inlined at {self.module.path}:{node.lineno}")
         ev, term, ret = sub.block(m.body)
         self.fields = sub.fields
-        events.append(Inlined(f"{c.name}.{m.name}", ev, node.lineno, c, m))
-        return ret if ret is not None else ("const", None)
+        rv = ret if ret is not None else ("const", None)
+        events.append(Inlined(f"{c.name}.{m.name}", ev, node.lineno, c, m, dict(params), rv))
+        return rv
 
     def _expr_const(self, e):
         if isinstance(e, ast.Constant):
